@@ -179,6 +179,87 @@ func runLexNotProduct(c *Ctx) []Obligation {
 				}
 				return true
 			})
+			// second clause: an order comparison between the same field of two composite keys
+			// (k1.F < k2.F for a struct type with a Less method) decides the order of the keys only where
+			// the condition also relates every other field of the key
+			if ob.Status == OK {
+				ast.Inspect(fd.Body, func(n ast.Node) bool {
+					if ob.Status != OK {
+						return false
+					}
+					var cond ast.Expr
+					switch x := n.(type) {
+					case *ast.IfStmt:
+						cond = x.Cond
+					case *ast.ForStmt:
+						cond = x.Cond
+					}
+					if cond == nil {
+						return true
+					}
+					ast.Inspect(cond, func(m ast.Node) bool {
+						be, ok := m.(*ast.BinaryExpr)
+						if !ok {
+							return true
+						}
+						switch be.Op {
+						case token.LSS, token.LEQ, token.GTR, token.GEQ:
+						default:
+							return true
+						}
+						sx, ok1 := ast.Unparen(be.X).(*ast.SelectorExpr)
+						sy, ok2 := ast.Unparen(be.Y).(*ast.SelectorExpr)
+						if !ok1 || !ok2 {
+							return true
+						}
+						selX, selY := info.Selections[sx], info.Selections[sy]
+						if selX == nil || selY == nil || selX.Obj() != selY.Obj() || selX.Kind() != types.FieldVal {
+							return true
+						}
+						kt := namedOf(info.TypeOf(sx.X))
+						if kt == nil || !types.Identical(info.TypeOf(sx.X), info.TypeOf(sy.X)) {
+							return true
+						}
+						st, ok := kt.Underlying().(*types.Struct)
+						if !ok {
+							return true
+						}
+						hasLess := false
+						for i := 0; i < kt.NumMethods(); i++ {
+							if kt.Method(i).Name() == "Less" {
+								hasLess = true
+							}
+						}
+						if !hasLess {
+							return true
+						}
+						// every other field of the key is related somewhere in the condition
+						for i := 0; i < st.NumFields(); i++ {
+							f := st.Field(i)
+							if f == selX.Obj() {
+								continue
+							}
+							mentioned := false
+							ast.Inspect(cond, func(k ast.Node) bool {
+								if s2, ok := k.(*ast.SelectorExpr); ok {
+									if sl := info.Selections[s2]; sl != nil && sl.Obj() == f {
+										mentioned = true
+									}
+								}
+								return true
+							})
+							if !mentioned {
+								ob.Status = Violation
+								ob.Pos = c.Position(be.Pos())
+								ob.Detail = fmt.Sprintf("%s orders two %s keys by their %s field in a condition that never looks at %s: keys are ordered by all their fields (%s.Less), so two keys that differ in %s are compared as if they did not", srcText(c.Fset, be), kt.Obj().Name(), selX.Obj().Name(), f.Name(), kt.Obj().Name(), f.Name())
+								return false
+							}
+						}
+						return true
+					})
+					return true
+				})
+			}
 			out = append(out, ob)
 		}
 	}
